@@ -504,11 +504,53 @@ def run(project: Project, rep, tier: str):
     for n in infs[:1]:
         t = n.test
         col = None
-        if isinstance(t, ast.Compare) and isinstance(t.left, ast.Subscript):
+        if isinstance(t, ast.BoolOp) and isinstance(t.op, ast.And) and isinstance(t.values[-1], ast.Compare):
+            t = t.values[-1]   # `A and A[-1][1] == np.inf`: guarded against the empty list
+        if isinstance(t, ast.Compare) and isinstance(t.left, ast.Subscript) and isinstance(t.left.value, ast.Subscript) \
+                and isinstance(t.left.slice, ast.Constant) and isinstance(t.left.slice.value, int):
+            col = t.left.slice.value   # A[-1][1]
+        elif isinstance(t, ast.Compare) and isinstance(t.left, ast.Subscript):
             sl = t.left.slice
             last = sl.elts[-1] if isinstance(sl, ast.Tuple) and sl.elts else sl
             col = last.value if isinstance(last, ast.Constant) and isinstance(last.value, int) else None
-        if col == 1:
+        # the essential class is the LAST ROW OF THE INPUT (ripser's convention): the test must look at the diagram before it
+        # is re-ordered for the sweep — after the sort the last element is the latest-born bar
+        sorts = [x for x in ast.walk(f) if (isinstance(x, ast.Call) and ((isinstance(x.func, ast.Name) and x.func.id == "sorted")
+                 or (isinstance(x.func, ast.Attribute) and x.func.attr in ("sort", "argsort", "lexsort"))))]
+        base = t.left if isinstance(t, ast.Compare) else None
+        while isinstance(base, ast.Subscript):
+            base = base.value
+        late = False
+        if col == 1 and isinstance(base, ast.Name) and sorts:
+            # the name tested is (re)bound from a sort before the test, on every path to it
+            from ..core.cfg import CFG
+            try:
+                cfg_ = CFG(f)
+                nd_ = cfg_.node_of(n.test)
+                rd_ = cfg_.reaching_definitions()
+                defs_ = rd_.get(nd_.id, {}).get(base.id, set()) if nd_ is not None else set()
+                def birth_first(s_):
+                    # the sweep's order: the key's leading component is the birth (column 0) — then the last bar is the
+                    # latest-born one (a sort on the death would bring an infinite bar to the end on purpose)
+                    k_ = [kw.value for kw in s_.keywords if kw.arg == "key"]
+                    if not k_ or not isinstance(k_[0], ast.Lambda):
+                        return False
+                    b_ = k_[0].body
+                    lead = b_.elts[0] if isinstance(b_, (ast.List, ast.Tuple)) and b_.elts else b_
+                    return isinstance(lead, ast.Subscript) and isinstance(lead.slice, ast.Constant) and lead.slice.value == 0
+
+                def from_sort(d_):
+                    a_ = cfg_.nodes[d_].ast
+                    return a_ is not None and any(x is s_ and birth_first(s_) for s_ in sorts for x in ast.walk(a_))
+                late = bool(defs_) and all(from_sort(d_) for d_ in defs_)
+            except Exception:
+                late = False
+        if col == 1 and late:
+            rep.refuted("LX-DEG", fi, n, f"the infinite-bar test `{ast.unparse(n.test)}` looks at the last bar AFTER the bars were sorted "
+                                         f"for the sweep: that is the latest-born bar, not the trailing essential class of the input — an "
+                                         f"infinite bar that is not the latest-born one stays in and the landscape gets infinite values",
+                        construct=f"{fi.qualname}: infinite-bar test after the sort")
+        elif col == 1:
             rep.discharged("LX-DEG", fi, n, "trailing infinite bar is detected on the death column")
         elif col == 0:
             rep.refuted("LX-DEG", fi, n, f"the infinite-bar test `{ast.unparse(t)}` does not look at the death column")
